@@ -135,6 +135,8 @@ def intersection_interval_rule(cx):
 
 def run(cx):
     intersection_interval_rule(cx)
+    from rules.C09 import from_3_points_rules
+    from_3_points_rules(cx)
     # ---------------------------------------------------------------- cached boxes
     n = 0
     for b in E.user_bodies(cx.facts):
